@@ -25,16 +25,19 @@ contract("usim._primitives.condition.Condition.__await__",
 contract("usim._primitives.condition.Condition.__subscribe__",
          params={"self": REF("Condition"), "waiter": ANY, "interrupt": REF("Interrupt")}, inv_scope=NS,
          requires=["interrupt.sub is None", "not interrupt.scheduled", "not interrupt._revoked", "waiter is not None"],
+         # a waiter may only be parked on a date whose trigger is queued (After.__subscribe__ sees to it before super())
+         requires_direct=["implies(isinstance(self, After), self.trigger_due or bool(self))"],
          ensures=[
+             "interrupt.immediate == old(bool(self))",
              # already true: delivered in this time step; otherwise parked until triggered
              "implies(old(bool(self)), interrupt.scheduled and interrupt.due == loop.time and "
              "        loop._pending == old(loop._pending) + [Activation(waiter, interrupt)] and self._waiting == old(self._waiting))",
              "implies(not old(bool(self)), not interrupt.scheduled and self._waiting == old(self._waiting) + [(waiter, interrupt)] "
              "        and loop._pending == old(loop._pending))",
              "interrupt.sub is self and interrupt.target is waiter and interrupt._revoked == old(interrupt._revoked)"],
-         ghost_exit=["interrupt.sub = self\ninterrupt.target = waiter"],
+         ghost_exit=["interrupt.sub = self\ninterrupt.target = waiter\ninterrupt.immediate = interrupt.scheduled"],
          modifies=["Notification._waiting@self", "Loop._pending@loop", "Interrupt.sub@interrupt", "Interrupt.target@interrupt",
-                   "Interrupt.pos@interrupt", "Interrupt.scheduled@interrupt", "Interrupt.due@interrupt"],
+                   "Interrupt.pos@interrupt", "Interrupt.scheduled@interrupt", "Interrupt.due@interrupt", "Interrupt.immediate@interrupt"],
          props=["C07", "C08", "C03"])
 
 # ---- Inv_cond1 (C08): no waiter stays parked on a condition that is true
